@@ -335,11 +335,13 @@ func ruleCacheKey(r *Run) {
 			for _, ins := range allInstrs(fn) {
 				switch x := ins.(type) {
 				case *ssa.Lookup:
-					if isCacheMap(x.X) {
+					// inside a helper only keys handed in by Plan count: a helper that looks up
+					// keys it iterates itself (expiry housekeeping) is not the plan lookup
+					if _, isParam := x.Index.(*ssa.Parameter); isCacheMap(x.X) && (depth == 0 || isParam) {
 						lookKeys = append(lookKeys, subst(x.Index))
 					}
 				case *ssa.MapUpdate:
-					if isCacheMap(x.Map) {
+					if _, isParam := x.Key.(*ssa.Parameter); isCacheMap(x.Map) && (depth == 0 || isParam) {
 						storeKeys = append(storeKeys, subst(x.Key))
 					}
 				case *ssa.Call:
